@@ -180,14 +180,17 @@ def universal_tail(c, bibs, hist_calls, draw, steps, float_heights=False, on_cal
     return out
 
 
-def start(bibs):
+def start(bibs, ops=None):
+    """A competition with the athletes `bibs` entered; ops[i] = the entry call of athlete i ('add', or 'add:<keywords variant>'
+    for an entry made with the optional start-list keywords - no rule mentions them)."""
     c = hjimpl.new_comp()
     m = hjmodel.Model()
     hist = []
-    for b in bibs:
-        hjimpl.apply(c, ('add', b))
-        m.apply(('add', b))
-        hist.append(('add', b))
+    for i, b in enumerate(bibs):
+        op = ops[i] if ops and i < len(ops) and str(ops[i]).split(':')[0] == 'add' else 'add'
+        hjimpl.apply(c, (op, b))
+        m.apply((op, b))
+        hist.append((op, b))
     return c, m, hist
 
 
@@ -225,7 +228,7 @@ def replay(case, on_state=None):
 
 
 def _replay(case, on_state=None):
-    c, m, hist = start(case['bibs'])
+    c, m, hist = start(case['bibs'], [x[0] for x in case['calls'][:len(case['bibs'])]])
     out = []
     fh = bool(case.get('float_heights'))
     intb = any(isinstance(b, int) for b in case['bibs'])
